@@ -536,7 +536,7 @@ func (vm *Type) Run(retResult bool) (value.Type, error) {
 			val := vm.fetch(instr.Src0(), instr.Src0Addr(), m, ds)
 			i, ok := val.ToInt()
 			if !ok {
-				os.Exit(255)
+				return vm.dumpStack(ctxp, ip, value.ErrType, val)
 			}
 			os.Exit(i)
 
